@@ -123,7 +123,7 @@ func runPlainRead(b Beh, seed int64) ([]J, error) {
 		}
 		return 4096
 	}
-	_ = mu
+	_ = &mu
 	// credit: bytes a read returned before the word's ReadReturn step came (the implementation does not wait for the word)
 	credit := -1
 	for k, s := range steps[1:] {
